@@ -558,6 +558,9 @@ func GenerateRun(seed uint64, opt GenOptions) (*World, []Op) {
 	if n == 0 {
 		n = 7
 	}
+	if g.opt.Avoid["no_header_match"] {
+		opt.ExcludeIngressKeys = append(append([]string{}, opt.ExcludeIngressKeys...), "http-header-match", "http-header-match-regex")
+	}
 	g.ingKeys = g.subset(filterKeys(ingressAnnotations, opt.IngressKeys, opt.ExcludeIngressKeys), n)
 	g.svcKeys = g.subset(filterKeys(serviceAnnotations, opt.ServiceKeys, nil), 2)
 	g.glbKeys = g.subset(filterKeys(globalKeys, opt.GlobalKeys, opt.ExcludeGlobalKeys), 4)
